@@ -4,7 +4,12 @@ Model: coq/Model/Threads.v (hand-written): per-thread namespaces of the two
 module-level singletons (created lazily with exactly the attributes the `ns`
 properties create), per-compiler cell state, one small-step machine per thread whose
 steps are the entries of ExcelCompiler._evaluate.  Theorems: C07_noninterference
-(+ _trace), C07_fresh; Refuted/C07_shared.v shows the dependence on thread-locality.
+(+ _trace), C07_fresh; C07_n_threads, C07_serializable, C07_same_projections,
+C07_steps_commute, C07_result_alone, C07_completion_alone, C07_same_count_same_view,
+C07_warm_equals_fresh, C07_set_value_warm_equals_fresh, C07_namespace_lazy (Proofs/C07Ser.v,
+C07Warm.v); the
+dependence on thread-locality: C07_shared_namespace_interferes,
+C07_shared_context_stack_interferes (and Refuted/C07_shared.v).
 
 Tie to the implementation:
 * schedule enumeration on REAL threads: `compiler._evaluate` is wrapped (before first
@@ -20,6 +25,11 @@ Tie to the implementation:
   pairs the extracted model is run under the same schedule and must give the same
   result / pass count / number of entries (thread-local namespaces), and the
   shared-namespace variant is run to show that it does differ;
+* 3 or 4 workloads on as many real threads under a relay (class Relay: an explicit plan
+  of segments "thread p passes c pre-emption points"): every thread is stopped inside
+  its operation before the next one starts, then random short turns, then completion
+  in a random order; each thread must equal its solo run, and all-iterative tuples are
+  run by the extracted model (entry schedn) under the same schedule;
 * brand-new threads: from_file of an iterative model, set_value, evaluate,
   trim_graph must all work;
 * static inventory (Python `ast`, regenerated every run) of module-level and
@@ -49,7 +59,11 @@ ASSUMPTIONS = []
 EXPLANATION = (
     "PARTIAL: the model interleaves at _evaluate granularity; pre-emption inside C code / the GIL, and "
     "state outside the static inventory, are beyond it. C07_noninterference/_trace and C07_fresh are proved "
-    "for all schedules and operations; the tie is the real-thread schedule enumeration and the inventory.")
+    "for all schedules and operations, as are C07_n_threads (any number of threads), C07_serializable / "
+    "_same_projections / _steps_commute (whole global state = serial schedule), C07_result_alone / "
+    "_completion_alone (a finished thread's result, pass count and finishing point are its solo run's), "
+    "C07_warm_equals_fresh / _namespace_lazy (leftover tracker state is invisible to evaluate); "
+    "C07_shared_namespace_interferes / _shared_context_stack_interferes show the thread-locality is needed; the tie is the real-thread schedule enumeration and the inventory.")
 
 # ---- the model's list of state shared by all compilers of a process (Model/Threads.v header) ----
 THREAD_LOCAL = {                      # class attribute -> attributes its `ns` property creates
@@ -411,7 +425,78 @@ def interleaved(impl, wa, wb_, j, k, warm_a, warm_b):
     return oa, ob
 
 
+class Relay:
+    """Any number of threads under an explicit plan.  A segment (p, c) lets thread p pass c of its
+    pre-emption points (the start of the operation and the entries of _evaluate: c steps of the model's
+    machine), then the next segment's thread runs; segments of finished threads are skipped.  The plan ends
+    with one unbounded segment per thread, so every thread runs to completion."""
+
+    def __init__(self, names, segments):
+        self.cv = threading.Condition()
+        self.names = list(names)
+        self.segs = [list(s) for s in segments]
+        self.finished = {n: False for n in self.names}
+        self.error = None
+        self.turn = None
+        self.switches = 0
+        with self.cv:
+            self._advance()
+
+    def _advance(self):
+        while self.segs and (self.segs[0][1] <= 0 or self.finished[self.segs[0][0]]):
+            self.segs.pop(0)
+        new = self.segs[0][0] if self.segs else next((n for n in self.names if not self.finished[n]), None)
+        if new != self.turn and self.turn is not None and not self.finished[self.turn]:
+            self.switches += 1          # a thread was pre-empted in the middle of its operation
+        self.turn = new
+        self.cv.notify_all()
+
+    def wait_turn(self, me):
+        while self.turn != me:
+            if not self.cv.wait(timeout=20):
+                self.error = f'relay timeout waiting for {me}'
+                raise RuntimeError(self.error)
+
+    def gate(self, me):
+        with self.cv:
+            if self.segs and self.segs[0][0] == me:
+                self.segs[0][1] -= 1
+                if self.segs[0][1] <= 0:
+                    self._advance()
+            self.wait_turn(me)
+
+    def begin(self, me):
+        with self.cv:
+            self.wait_turn(me)
+
+    def finish(self, me):
+        with self.cv:
+            self.finished[me] = True
+            self._advance()
+
+
+def interleaved_n(impl, wls, segments, warm):
+    relay = Relay(range(len(wls)), segments)
+    outs = [{} for _ in wls]
+    ths = [threading.Thread(target=thread_body(impl, w, warm, outs[p], (lambda p=p: relay.gate(p)),
+                                               begin=(lambda p=p: relay.begin(p)),
+                                               finish=(lambda p=p: relay.finish(p))))
+           for p, w in enumerate(wls)]
+    for t in ths:
+        t.start()
+    for t in ths:
+        t.join(60)
+    return outs, relay
+
+
 # ------------------------------------------------------------------ model side
+def model_call_n(ws, segments):
+    cells = [base.model_args(w.wb, [])[0] for w in ws]
+    kinds = [[0, w.target, w.it, base.enc_q(w.tol)] for w in ws]
+    sched = [p for p, c in segments for _ in range(min(c, 400))]
+    return ('schedn', [cells, kinds, sched, 0])
+
+
 def model_call(wa, wb_, j, k, shared):
     def cells(w):
         return base.model_args(w.wb, [])[0]
@@ -555,7 +640,10 @@ def run(ctx):
         "real threads; B runs to completion or to "
         "its own k-th _evaluate entry inside the j-th _evaluate entry of A, (j, k) sampled (thorough: all) up to the "
         "workload lengths; threads fresh or warmed up by another iterative evaluation with other settings; a case is "
-        "a distinct (workload A, workload B, j, k, fresh/warm); plus every public operation on a brand-new thread "
+        "a distinct (workload A, workload B, j, k, fresh/warm); plus 3 or 4 workloads on as many real threads under "
+        "a relay: every thread is stopped inside its operation before the next starts (nested pre-emption), then "
+        "random short turns, then completion in a random order - each thread must equal its solo run, all-iterative "
+        "tuples are also run by the extracted model (schedn) under the same schedule; plus every public operation on a brand-new thread "
         "and the static inventory of module/class-level mutable objects")
     check_inventory(ctx, REPO)
     fresh_thread_ops(ctx, impl)
@@ -603,6 +691,58 @@ def run(ctx):
                 model_calls.append(model_call(wa, wb_, j, k, False))
                 model_calls.append(model_call(wa, wb_, j, k, True))
                 model_cases.append((case, oa, ob))
+    # ---- three or four threads, nested pre-emption (C07_n_threads, C07_serializable, C07_result_alone)
+    good = [i for i in range(len(wls)) if 'error' not in solos[i]]
+    iters = [i for i in good if wls[i].kind == 'iter']
+    n_calls, n_cases, n_switches = [], [], 0
+    for _ in range(ctx.n(120, 1500) if len(good) >= 4 else 0):
+        m = 3 if rng.random() < 0.75 else 4
+        idxs = rng.sample(iters, m) if (rng.random() < 0.4 and len(iters) >= m) else rng.sample(good, m)
+        order = rng.sample(range(m), m)
+        # every thread is stopped in the middle of its operation before the next one starts ...
+        segs = [(p, rng.randint(1, solos[idxs[p]]['calls'])) for p in order]
+        # ... then a few short turns, then each thread runs to completion
+        segs += [(rng.randrange(m), rng.randint(1, 3)) for _ in range(rng.randint(0, 6))]
+        segs += [(p, 10 ** 6) for p in rng.sample(range(m), m)]
+        warm = rng.random() < 0.5
+        ws = [wls[i] for i in idxs]
+        outs, relay = interleaved_n(impl, ws, segs, warm_wl if warm else None)
+        n_switches += relay.switches
+        case = dict(call='interleave_n', args=[[w.describe() for w in ws], [list(x) for x in segs],
+                                               'warm' if warm else 'fresh'])
+        ctx.count(('n', tuple(idxs), tuple(segs), warm), kind=f"{m} threads:{'warm' if warm else 'fresh'}",
+                  sample=dict(case, results=[o.get('result') for o in outs]))
+        if relay.error:
+            ctx.violation(case, relay.error)
+        for p, i in enumerate(idxs):
+            if outs[p] != solos[i]:
+                diff = {key: (outs[p].get(key), solos[i].get(key)) for key in set(outs[p]) | set(solos[i])
+                        if outs[p].get(key) != solos[i].get(key)}
+                ctx.violation(case, f"thread {p} of {m} differs from its solo run in {sorted(diff)}",
+                              impl={k2: v[0] for k2, v in diff.items()},
+                              expected={k2: v[1] for k2, v in diff.items()})
+        if all(w.kind == 'iter' for w in ws) and ctx.model:
+            n_calls.append(model_call_n(ws, segs))
+            n_cases.append((case, outs))
+    ctx.extra['n_thread_preemptions'] = n_switches
+    if n_calls:
+        res = ctx.model.batch(n_calls)
+        for (case, outs), r in zip(n_cases, res):
+            local = [dec_mach(x) for x in r]
+            if any(mm['phase'] == 'fail' and mm['exc'] in ('Unmodelled', 'OutOfFuel') for mm in local):
+                ctx.histogram['unmodelled'] = ctx.histogram.get('unmodelled', 0) + 1
+                continue
+            if not all(mm['result'] is None or (abs(mm['result'].numerator) < 2 ** 48
+                                                and mm['result'].denominator <= 2 ** 48) for mm in local):
+                ctx.histogram['inexact-skipped'] = ctx.histogram.get('inexact-skipped', 0) + 1
+                continue
+            for p, (got, mm) in enumerate(zip(outs, local)):
+                mine = dict(result=mm['result'], passes=mm['passes'], calls=mm['calls'])
+                theirs = dict(result=got.get('result'), passes=got.get('passes'), calls=got.get('calls'))
+                if mm['phase'] != 'done' or mine != theirs:
+                    ctx.divergence(dict(case, thread=p), theirs, dict(mine, phase=mm['phase']),
+                                   'Model/Threads.v run of n threads (schedn) = real threads under the relay')
+    ctx.extra['model_schedules_n'] = len(n_cases)
     # ---- the extracted model under the same schedules
     shared_differs = 0
     if model_calls:
